@@ -43,6 +43,10 @@ MODELS = {
     # algebraic facts of the function-level operators on enumerated domains
     "mc_fn_quick": ("MC_Fn.tla", "MC_Fn_quick.cfg", 1800, ["oneshot_accepts", "conn_one_clean", "hdr_fatal", "hdr_lastwins", "abs_uri", "route_dup", "route_hit"]),
     "mc_fn": ("MC_Fn.tla", "MC_Fn_thorough.cfg", 3600, ["oneshot_accepts", "conn_one_clean", "hdr_fatal", "hdr_lastwins", "abs_uri", "route_dup", "route_hit"]),
+    # response builder as a state machine: all versions x codes x <= 3 setter calls
+    "mc_resp": ("MC_Resp.tla", "MC_Resp.cfg", 900, ["no_length_100", "body_after_204", "crlf_body", "length_removed", "allow_two", "encoding_with_length"]),
+    # liveness with a rogue client under strong fairness: the witness is always served (slow: ~3.5 min)
+    "srv_livew": ("MC_Server.tla", "MC_Server_livew.cfg", 3600, []),
     # descriptors arriving with reads (C12)
     "conn_files": ("MC_Conn.tla", "MC_Conn_files.cfg", 1800, ["files_delivered", "body_delivered", "pipelined"]),
 }
@@ -741,7 +745,7 @@ SRV_ASSUME = [
 
 TABLE.update({
     "C07": lambda tier, seed: srv_property("C07", tier, seed, ["srv_quick", "srv_race", "srv_capq"] + (["srv_cap"] if tier == "thorough" else []), [("full", "C07", 300, 3000), ("small", "C07", 300, 3000), ("full", "C07pipe", 200, 2000), ("gen", "Gen_Srv_rogue.cfg", 0, 0)], SRV_ASSUME, "DESIGN.md 6 C07"),
-    "C09": lambda tier, seed: srv_property("C09", tier, seed, ["srv_quick", "srv_race", "srv_capq"] + (["srv_cap"] if tier == "thorough" else []), [("full", "C09", 300, 3000), ("small", "C09", 200, 2000), ("small", "C10", 200, 2000), ("full", "C09slow", 40, 400), ("gen", "Gen_Srv_rogue.cfg", 0, 0)], SRV_ASSUME, "DESIGN.md 6 C09"),
+    "C09": lambda tier, seed: srv_property("C09", tier, seed, ["srv_quick", "srv_race", "srv_capq"] + (["srv_cap", "srv_livew"] if tier == "thorough" else []), [("full", "C09", 300, 3000), ("small", "C09", 200, 2000), ("small", "C10", 200, 2000), ("full", "C09slow", 40, 400), ("gen", "Gen_Srv_rogue.cfg", 0, 0)], SRV_ASSUME, "DESIGN.md 6 C09"),
     "C10": lambda tier, seed: srv_property("C10", tier, seed, ["srv_capq"] + (["srv_cap"] if tier == "thorough" else []), [("small", "C10", 300, 3000), ("full", "C10", 150, 1500)], SRV_ASSUME, "DESIGN.md 6 C10"),
     "C18": lambda tier, seed: srv_property("C18", tier, seed, ["srv_kill"], [("full", "C18", 300, 3000), ("small", "C18", 200, 2000)], SRV_ASSUME, "DESIGN.md 6 C18"),
     "C08": lambda tier, seed: srv_property("C08", tier, seed, ["srv_quick", "srv_progs", "srv_live"], [("full", "C08", 300, 3000), ("small", "C08", 200, 2000), ("full", "C08big", 24, 400), ("gen", "Gen_Srv_good.cfg", 0, 0)], SRV_ASSUME, "DESIGN.md 6 C08"),
@@ -924,7 +928,7 @@ FN_ASSUME = [
     "code-level results hold for the enumerated/generated inputs only",
 ]
 TABLE.update({
-    "C05": lambda tier, seed: fn_property("C05", tier, seed, [], ["C05"], FN_ASSUME, "DESIGN.md 6 C05"),
+    "C05": lambda tier, seed: fn_property("C05", tier, seed, ["mc_resp"], ["C05"], FN_ASSUME, "DESIGN.md 6 C05"),
     "C14": lambda tier, seed: fn_property("C14", tier, seed, ["mc_fn_quick" if tier == "quick" else "mc_fn"], ["C14"], FN_ASSUME, "DESIGN.md 6 C14"),
     "C15": lambda tier, seed: fn_property("C15", tier, seed, ["mc_fn_quick" if tier == "quick" else "mc_fn"], ["C15"], FN_ASSUME, "DESIGN.md 6 C15"),
     "C16": lambda tier, seed: fn_property("C16", tier, seed, ["mc_fn_quick" if tier == "quick" else "mc_fn"], ["C16"], FN_ASSUME, "DESIGN.md 6 C16"),
